@@ -237,6 +237,12 @@ theorem no_panic (X : Ext α) (htame : ∀ js rc, X.build js = some rc → Tame 
         · rename_i rc hrc
           exact readBlocks_panic _ (fun c k => decompress_no_panic X _ c k) (htame _ _ hrc) _ _ _ _ h
 
+/-- `no_panic` under the name the conventions ask for: it is the partial statement (everything but
+`make`'s length limit); the full one is `no_panic_full`, refuted by `no_panic_full_false`. -/
+theorem no_panic_partial (X : Ext α) (htame : ∀ js rc, X.build js = some rc → Tame rc.decode)
+    (fuel : Nat) (cb : Nat → Option ε) (bs : Bytes) (k : PanicKind)
+    (h : (readFile X fuel cb bs).res = .panic k) : k = .hugeMake := no_panic X htame fuel cb bs k h
+
 /-- The full-strength statement: no input makes `ReadFile` panic. It is false for the code as it
 is (`no_panic_full_false`): a declared length above 2^48 reaches `make`. -/
 def no_panic_full : Prop :=
